@@ -143,8 +143,12 @@ class C12Access(Machine):
             return {"op": "iterate", "file": f, "slice_range": rng.pick([None] + list(range(1, n + 3))),
                     "via": rng.pick(["reader", "File", "with"])}
         if k == "index":
-            return {"op": "index", "file": f, "i": rng.randint(-n, n - 1),
-                    "slice_range": rng.pick([None, 1, 2, 3])}
+            op = {"op": "index", "file": f, "i": rng.randint(-n, n - 1),
+                  "slice_range": rng.pick([None, 1, 2, 3])}
+            if rng.chance(0.5):
+                # further events are fetched by index before the first one is looked at
+                op["also"] = [rng.randint(-n, n - 1) for _ in range(rng.randint(1, 3))]
+            return op
         if k == "slice":
             a = rng.randint(0, n - 1)
             b = rng.randint(a + 1, n)
@@ -347,14 +351,18 @@ class C12Access(Machine):
     def _op_index(self, op):
         r = self._open_reader(op["file"], op["slice_range"])
         try:
-            st, got = self.sut(lambda: self._read(r[op["i"]]), where="getitem(int)")
+            idx = [op["i"]] + list(op.get("also", []))
+            st, held = self.sut(lambda: [r[i] for i in idx], where="getitem(int)")
+            st, got = self.sut(lambda: [self._read(ev) for ev in held], where="read of indexed events")
         finally:
             r.close()
         if op["i"] < 0:
             self.count("probe.negative_spelling")
             self.nontrivial = True
-        self._expect([got], [op["i"] % self.n], "file[%d]" % op["i"])
-        return ["index", op["i"]]
+        if len(idx) > 1:
+            self.count("probe.indexed_events_held_together")
+        self._expect(got, [i % self.n for i in idx], "file[i] for i in %r (all fetched before any was read)" % (idx,))
+        return ["index", idx]
 
     def _spell(self, a, b, c, spell):
         n = self.n
